@@ -47,9 +47,14 @@ def all_jobs():
     for n, c in (('op_and', 'OpANDExpression'), ('op_ior', 'OpIORExpression'), ('op_xor', 'OpXORExpression'),
                  ('op_pop', 'OpPOPExpression'), ('op_pus', 'OpPUSExpression'), ('op_not', 'OpNOTExpression')):
         J.append(op(n, c, ['C01', 'C02', 'C03', 'C05']))
-    for n, c in (('op_add', 'OpADDExpression'), ('op_sub', 'OpSUBExpression'), ('op_mul', 'OpMULExpression'), ('op_div', 'OpDIVExpression'), ('op_mod', 'OpMODExpression'),
+    for n, c in (('op_exp', 'OpEXPExpression'), ('op_add', 'OpADDExpression'), ('op_sub', 'OpSUBExpression'), ('op_mul', 'OpMULExpression'), ('op_div', 'OpDIVExpression'), ('op_mod', 'OpMODExpression'),
                  ('op_neg', 'OpNEGExpression'), ('op_pos', 'OpPOSExpression')):
         j = op(n, c, ['C01', 'C02', 'C03', 'C05'], weight=10, uf=(n != 'op_pos'))
+        if n == 'op_exp':
+            # the power loop runs once per bit of the exponent: unwinding 65 with unwinding assertions is complete;
+            # with real 64-bit multipliers that is 128 multiplier circuits, so every obligation of this job is
+            # decided under the uninterpreted-function abstraction of * (no obligation of the job concerns *'s value)
+            j.update(unwind=65, unwind_why='ipow loop: one iteration per exponent bit (64); complete, not a bound on inputs', uf_all=True, structs=DEFAULT_STRUCTS + ['std::complex<double>'])
         j['replace'] = j['replace'] + [V_CTOR_IMAG] + ([V_CLONE] if n == 'op_add' else [])
         j['cut'] = j['cut'] + [V_CTOR_IMAG] + ([V_CLONE] if n == 'op_add' else [])
         J.append(j)
@@ -66,6 +71,11 @@ def all_jobs():
                 src = 'blocc/parse_expression.cpp' if kind == 'ctor' else ('blocc/expression_integer.cpp' if cls == 'IntegerExpression' else 'blocc/expression_numeric.cpp')
             J.append(dict(id='const_%s_%s' % (cls, kind), src=src, contract='const_%s.c' % cls, enforce=mg, roots=[mg], replace=rep,
                           cut=rep + [RTE_CTOR, RTE_CTOR_S], props=(['C01', 'C04', 'C05'] + (['C02'] if (kind == 'value' or lit) else [])), pretty='bloc::%s::%s' % (cls, kind), canaries=['normal']))
+    for n, c in (('op_add', 'OpADDExpression'), ('op_sub', 'OpSUBExpression'), ('op_mul', 'OpMULExpression'), ('op_div', 'OpDIVExpression'),
+                 ('op_mod', 'OpMODExpression'), ('op_exp', 'OpEXPExpression')):
+        mg = '_ZNK4bloc%d%s4typeERNS_7ContextE' % (len(c), c)
+        J.append(dict(id='type_' + n, src='blocc/operator/%s.cpp' % n, contract='type_%s.c' % n, enforce=mg, roots=[mg], replace=['VCALL_Expression_type'],
+                      cut=['VCALL_Expression_type', RTE_CTOR, RTE_CTOR_S], props=['C01', 'C02'], pretty='bloc::%s::type' % c, canaries=['normal']))
     mg = '_ZNK4bloc12FORStatement4doitERNS_7ContextE'
     CTX_STUBS = ['_ZN4bloc7Context10topControlEv', '_ZN4bloc7Context14topControlDataEv', '_ZN4bloc7Context12stackControlEPKNS_10ControllerEPv',
                  '_ZN4bloc7Context14unstackControlEv', '_ZN4bloc7Context9getSymbolEj', '_ZN4bloc7Context13storeVariableEjONS_5ValueE',
